@@ -246,6 +246,33 @@ func roland(part, parts int) {
 			judge(v, x%32 == 1)
 		}
 	}
+	// address x size: every address over a set of boundary bytes with payloads
+	// (data set) and requested sizes (request) that stay inside, reach and pass
+	// the end of the 21-bit address space seen from there
+	edge := []byte{0x00, 0x01, 0x3F, 0x40, 0x7E, 0x7F}
+	k := 0
+	for _, a0 := range edge {
+		for _, a1 := range edge {
+			for _, a2 := range edge {
+				k++
+				if k%parts != part {
+					continue
+				}
+				for _, n := range []int{1, 2, 3, 127, 128, 129, 255, 256, 257, 16383, 16384, 16385} {
+					v := base(false)
+					v.Address = [3]byte{a0, a1, a2}
+					v.SendingData = pattern(n, 0)
+					judge(v, false)
+				}
+				for _, sz := range [][3]byte{{0, 0, 1}, {0, 0, 2}, {0, 1, 0}, {0, 1, 1}, {1, 0, 0}, {0x7F, 0x7F, 0x7F}, {0, 0x7F, 0x7F}} {
+					v := base(true)
+					v.Address = [3]byte{a0, a1, a2}
+					v.NumReqBytes = sz
+					judge(v, false)
+				}
+			}
+		}
+	}
 	if part == 0 {
 		// a value that carries the fields of the other kind as well (a parsed
 		// request answered by filling in the data, a data-set that still has size
